@@ -24,7 +24,7 @@ class C18(StrCheck):
     def gen(self, rng, tier):
         for h in directed_failing(rng):
             yield 'str 4 ' + ';'.join(h)
-        n = 400 if tier == 'quick' else 8000
+        n = 400 if tier == 'quick' else 48000
         for _ in range(n):
             yield 'str 4 ' + ';'.join(failing_history(rng, rng.choice([8, 12, 16])))
         # string_stream: insertion of wide text, valid and ill-formed, with the stream filled to every position
